@@ -206,7 +206,10 @@ fn judge_mesh(pts: &[Point3], faces: &[[u32; 3]], case: &Case, l: &mut Local) {
     // error is acceptable, a set of loops that drops or repeats a boundary edge is not)
     let wound = directed.values().all(|c| *c == 1) && !r.nonmanifold;
     let pinched = !bcount.values().all(|c| *c <= 2);
-    if wound && !r.boundary.is_empty() {
+    // (the loops come back as points, which are mapped to vertices by position: not possible where two vertices
+    // coincide)
+    let coincident = (0..pts.len()).any(|i| (0..i).any(|j| pts[i] == pts[j]));
+    if wound && !r.boundary.is_empty() && !coincident {
         let (runs, outs, _capped) = explore_choices(MAX_DEV, EXEC_CAP, || {
             verif::set_budget(budget * 4);
             let res = guarded(|| mesh.get_patch_boundary_points().map_err(|e| e.to_string()));
@@ -282,6 +285,19 @@ fn structured(name: &str) -> (Vec<Point3>, Vec<[u32; 3]>) {
         "grid3x3" => grid(3, 3, None),
         "grid4x4" => grid(4, 4, None),
         "grid3x3-hole" => grid(3, 3, Some((1, 1))),
+        "grid3x3-micro" => {
+            // the same grid in tenths of a micron: every edge is about 1e-7 long
+            let (v, f) = grid(3, 3, None);
+            (v.iter().map(|p| Point3::from(p.coords * 1e-7)).collect(), f)
+        }
+        "grid2x2-coincident" => {
+            // an unwelded duplicate of vertex 0 joined to the boundary by a face of zero area: one edge of length 0
+            let (mut v, mut f) = grid(2, 2, None);
+            let n = v.len() as u32;
+            v.push(v[0]);
+            f.push([1, 0, n]);
+            (v, f)
+        }
         "tube8" => {
             let m = Mesh::create_cylinder(1.0, 2.0, 8);
             (m.vertices().to_vec(), m.faces().to_vec())
@@ -314,7 +330,7 @@ fn structured(name: &str) -> (Vec<Point3>, Vec<[u32; 3]>) {
     }
 }
 
-const STRUCTURED: [&str; 10] = ["grid2x2", "grid3x2", "grid3x3", "grid4x4", "grid3x3-hole", "tube8", "box", "octahedron", "two-components", "corner-contact"];
+const STRUCTURED: [&str; 12] = ["grid2x2", "grid3x2", "grid3x3", "grid4x4", "grid3x3-hole", "grid3x3-micro", "grid2x2-coincident", "tube8", "box", "octahedron", "two-components", "corner-contact"];
 
 fn judge_voxels(case: &Case, l: &mut Local) {
     let mk = || serde_json::to_value(case).unwrap();
@@ -608,7 +624,7 @@ pub fn cases(tier: Tier) -> Vec<Case> {
 
 pub fn run(tier: Tier) -> i32 {
     let mut cx = Ctx::new("C12", tier, "model_checking");
-    cx.rule = "inputs: every list of <= 4 oriented triangles over 5 vertices and <= 4 (thorough: 5) over 6 vertices (thorough: also <= 3 over 7) (all small disks, fans, bow-ties, pillows, flipped and non-manifold configurations), 10 structured meshes each also with every single face flipped, every subset of <= 5 cells of a 2x2x3 voxel block (subsets of <= 3 also shifted to straddle the origin), every ordered list of <= 4 directed pairs over 5 indices, box and cylinder generators; environment: for every mesh / voxel set all hash-map and hash-set traversal orders are choice points answered by the explorer (all permutations up to 4 elements, rotations and reversals beyond), explored exhaustively up to 2 departures from the default order; termination decided by tick budgets 10*3F+100. distinct = distinct inputs".into();
+    cx.rule = "inputs: every list of <= 4 oriented triangles over 5 vertices and <= 4 (thorough: 5) over 6 vertices (thorough: also <= 3 over 7) (all small disks, fans, bow-ties, pillows, flipped and non-manifold configurations), 12 structured meshes (one in tenths of a micron, one with a zero-length edge) each also with every single face flipped, every subset of <= 5 cells of a 2x2x3 voxel block (subsets of <= 3 also shifted to straddle the origin), every ordered list of <= 4 directed pairs over 5 indices, box and cylinder generators; environment: for every mesh / voxel set all hash-map and hash-set traversal orders are choice points answered by the explorer (all permutations up to 4 elements, rotations and reversals beyond), explored exhaustively up to 2 departures from the default order; termination decided by tick budgets 10*3F+100. distinct = distinct inputs".into();
     cx.bounds = json!({"max_deviations": MAX_DEV, "execution_cap_per_input": EXEC_CAP, "faces_v5": 4, "faces_v6": tier.pick(4, 5), "faces_v7": tier.pick(0, 3), "pair_list_len": 4});
     cx.require(&["patch boundary loops on a consistently wound mesh", "patch boundary loops on a consistently wound mesh pinched at a vertex", "edge shared by more than two faces", "closed mesh", "mesh with boundary", "inconsistent winding", "vertex with more than two boundary edges", "structured mesh", "structured mesh with one face flipped", "voxel set with several clusters", "voxel set with one cluster", "path or cycle input", "branching input", "box generator", "cylinder generator"]);
     cx.assume("iteration orders beyond 4 elements are represented by rotations and reversals of the sorted order; at most 2 non-default traversals per execution");
